@@ -73,6 +73,23 @@ PROPS = {
           "oracle: accepted by fat2.NewTransactionBatch => accepted by the independent FAT-103 reference validator, and properly built entries are accepted. "
           "Non-trivial: chain cases all (control executed by construction); function cases accepted by either side. Distinct by content/placement.",
           quick=(8, 12), thorough=(16, 250), timeout=(600, 3000)),
+ "C10": P("TestC10", "fault_enumeration",
+          "rapid generates short 2.0 chains crossing the developer-reward and 2.0.2 activations (both burn-address zeroing calls with their extra dblock fetch), the mint and mint-burn heights and a "
+          "snapshot + developer payout height, with SPR sets, transfers, conversions and batches. A recording run lists every upstream request of the sync goroutine and its fetch workers "
+          "(dblock, eblock, each entry, heights excluded) and every SQL call (begin/exec/query/prepared exec+query/commit, on the block's sql.Tx and on the pool). Each enumerated site is then "
+          "failed once (upstream: transport error / HTTP 500 / JSON-RPC error / truncated body by ordinal; SQL: generic error or SQLITE_BUSY), the daemon is restarted if it exits, and it must "
+          "reach the tip with a ledger dump equal to the fault-free run. quick: 60 sampled sites per chain; thorough: ALL sites of each chain (counter chains_enumerated_exhaustively) plus 40 random pairs. "
+          "Non-trivial = every fired site (all belong to blocks with ledger effects or to the retry path); distinct by (chain, layer, ordinal, statement).",
+          quick=(8, 1), thorough=(16, 1), timeout=(900, 3300), shrinktime="20s"),
+ "C02": P("TestC02", "fault_enumeration",
+          "rapid generates the same activation-crossing 2.0 chains as C10 (zeroing, mint, snapshot + developer payout, SPR sets, transfers, conversions) x journal mode {rollback journal, WAL}. "
+          "A reference run in step mode records the ledger after every height (D[h]) and every SQL call made while syncing (begin/exec/query/prepared exec+query/commit) with the block it belongs to. "
+          "Crash points = (call k, before | after) for every call: a child daemon process (same test binary, real file database) syncs the chain and SIGKILLs itself at the point; plus, for every "
+          "statement, 'a block fails': the statement returns an error and the daemon is stopped right after the failed attempt. Oracle: a fresh daemon opens the file; version rows are exactly "
+          "start+1..H, each once, contiguous; synced metadata = H = the height implied by the crash point (h-1 before the COMMIT of block h returns, h after); ledger dump == D[H] (all of the blocks "
+          "<= H, nothing of H+1); after resuming to the tip ledger dump == D[tip]. quick: 40 points per chain (a third of them around COMMIT / sync-height writes); thorough: ALL points of each chain. "
+          "Non-trivial = the interrupted block issues >= 3 write statements; distinct by (chain, journal mode, call, before/after, mode).",
+          quick=(8, 1), thorough=(16, 1), timeout=(900, 3300), shrinktime="20s", disk_scratch=True),
 }
 
 ALL = ["C%02d" % i for i in range(1, 21)]
@@ -102,6 +119,12 @@ TEXT = {
  "C05": {"technique": "property-based testing (rapid mutation of valid signed entries); metamorphic chain differential (with/without the tampered entry) + differential against an independent FAT-103 validator",
          "level_text": "Exploration: hundreds (quick) to thousands (thorough) of tampered entries pushed through the real block pipeline, plus tens of thousands of validator comparisons.",
          "level_note": "Flips of the RCD-e recovery byte are a registered known finding (probe reproduces a second debit) and excluded from the search. Trusted: ed25519 / secp256k1 implementations."},
+ "C10": {"technique": "fault injection enumerated over every upstream request and SQL statement of generated chains (rapid chooses chains, samples and pairs); differential against the fault-free run of the real daemon",
+         "level_text": "Fault enumeration: the thorough tier fails every single upstream request and SQL statement of 16 generated chains in turn (about 1,800 sites per chain) and 40 pairs per chain; quick samples 60 sites per chain on 8 chains.",
+         "level_note": "Faults are injected by ordinal in the fake factomd (RoundTripper) and in a wrapping database/sql driver; entry fetches run on 8 workers, so the ordinal of an entry request names 'some entry of that block'. The call site NullifyBurnAddress is a registered known finding (its result is discarded by design and cannot be propagated without halting mainnet); faults there are counted, not reported."},
+ "C02": {"technique": "crash-point enumeration (SIGKILL of a child daemon at every SQL call, before/after; injected statement failure) over rapid-generated chains; prefix-state equality and resume equality against a reference run",
+         "level_text": "Fault enumeration: thorough kills a real daemon process at every SQL call (before and after, about 5,000 points per chain incl. the error mode) of 16 generated chains in both journal modes; quick samples 40 points per chain on 8 chains with the calls around COMMIT always included.",
+         "level_note": "SIGKILL models process death, not power loss (the OS page cache survives). Child databases live on real disk under /verif/.build and are removed after each point. Statement failures inside NullifyBurnAddress are a registered known finding of C10 (error swallowed by design) and excluded from the 'a block fails' mode."},
 }
 
 _BUILT = set(PROPS)
